@@ -20,7 +20,7 @@ def plan(ctx, tier, seed):
     # registered pairs: DFR8(+palette)->GR, DF24->GR, DFAN<->AN.  GR->DFR8/DF24 (modes 1, 3) are not registered: the
     # single-file raster interfaces only accept RIGs whose number type is DFNT_UCHAR8, which GR images created with
     # DFNT_UINT8 do not have (documented limitation of the old interfaces, see DESIGN.md 9.3).
-    combos = [(0, 0, 0), (5, 0, 0), (6, 0, 0)] + ([(4, 0, 0)] if tier != "quick" else [])  # quick: DFAN<->AN through mode 6 (same ref, another tag) only; each ~10 min
+    combos = [(0, 0, 0), (5, 0, 0)] + ([(4, 0, 0), (6, 0, 0)] if tier != "quick" else [])  # DFAN<->AN (modes 4, 6: ~10 min per instance, one query each) run in the thorough tier only
     ils = [(0, 0), (0, 1), (0, 2), (1, 2), (2, 0)] if tier == "quick" else [(a, b) for a in range(3) for b in range(3)]
     combos += [(2, a, b) for a, b in ils]
     for mode, il, ril in combos:
